@@ -250,6 +250,32 @@ def decodeExtensionRequestAll (values : Bytes) : Option (List Ext) :=
       | _ => none)).map List.flatten
   | _ => none
 
+/-! ### extensions at the level of the Extension SEQUENCE itself: identifier, criticality and the
+    octets of extnValue, without interpreting the value (used for "embedded byte for byte") -/
+
+def rawExt : Asn1 → Option (List Nat × Bool × Bytes)
+  | .cons 0 16 [o, .prim 0 4 v] => (asOid o).map (fun oid => (oid, false, v))
+  | .cons 0 16 [o, .prim 0 1 [b], .prim 0 4 v] => (asOid o).map (fun oid => (oid, b != 0, v))
+  | _ => none
+
+/-- the extensions of a TBSCertificate, uninterpreted -/
+def rawCertExts (tbs : Bytes) : Option (List (List Nat × Bool × Bytes)) :=
+  match decodeAll tbs with
+  | some (.cons 0 16 kids) =>
+    match kids.getLast? with
+    | some (.cons 2 3 [.cons 0 16 exts]) => exts.mapM rawExt
+    | _ => some []
+  | _ => none
+
+/-- the extensions of every value of an extensionRequest attribute, uninterpreted -/
+def rawRequestExts (values : Bytes) : Option (List (List Nat × Bool × Bytes)) :=
+  match decodeAll values with
+  | some (.cons 0 17 vals) =>
+    (vals.mapM (fun (v : Asn1) => match v with
+      | .cons 0 16 exts => exts.mapM rawExt
+      | _ => none)).map List.flatten
+  | _ => none
+
 /-! ### RFC 5280 §5 -/
 
 structure RevokedEntry where
